@@ -201,6 +201,15 @@ class Aff:
                             ns.add(vals[0] if len(set(vals)) == 1 else None)
             if len(ns) == 1 and None not in ns:
                 return ({}, ns.pop())
+        if k == "field" and e[2] in ("0", "1") and e[1][0] == "call" and re.search(r"::split_at(_mut)?$", short(e[1][1])) and len(e[1][2]) == 2:
+            # the two halves of `s.split_at(n)`: n and len(s) - n
+            n = self.value(e[1][2][1])
+            whole = self.length(e[1][2][0], depth + 1)
+            if n is not None and e[2] == "0":
+                return n
+            if n is not None and whole is not None:
+                return _lin_add(whole, n, -1)
+            return None
         if k in ("field", "as", "index"):
             a = "len:" + fmt_short(e)
             self.atom_ranges[a] = (0, 2 ** 63)
@@ -493,6 +502,10 @@ class Aff:
                     # element index through the Index trait (Vec<u8>[i])
                     i = self.value(rng)
                     out.append((blk.idx, "index", "%s[%s]" % (fmt_short(base)[:60], fmt_short(rng)), [("lt", i, bl, "index in bounds")], t.line))
+                continue
+            if re.search(r"::split_at(_mut)?$", n) and len(args) == 2:
+                out.append((blk.idx, "split", "%s.split_at(%s)" % (fmt_short(args[0])[:60], fmt_short(args[1])[:40]),
+                            [("le", self.value(args[1]), self.length(args[0]), "mid <= len")], t.line))
                 continue
             if re.search(r"(Result|Option)::(expect|unwrap)$", n):
                 src = args[0]
